@@ -426,7 +426,11 @@ def ev(expr, ctx):
     except Exception as e:  # noqa: BLE001
         raise Fail("content", f"raised {e!r}", expr) from None
     model, adm = _model_op(expr, [k[1] for k in kids])
-    snap = compare(real, model, adm, expr, ctx.mode)
+    try:
+        snap = compare(real, model, adm, expr, ctx.mode)
+    except Fail as f:
+        f.extra["model_cuts"] = model.cuts  # lets the wide-cut view claim the failure
+        raise
     check_unchanged(ctx, [k[2] for k in kids], expr, "after the operation")
     rec = (expr, real, snap)
     ctx.nodes.append(rec)
@@ -1015,7 +1019,7 @@ def run(tier="quick", seed=0):
                     nontriv = e[0] != "leaf"
                 checks[name].case(k, not bad, f if bad else None, nontrivial=nontriv, sample=sample)
             # wide-cut view of the content clause
-            bad = bool(f) and f["check"] == "content" and (f.get("half_character") or "' '" in f["why"])
+            bad = bool(f) and f["check"] == "content" and bool(f.get("half_character") or f.get("model_cuts"))
             if cuts > 0 or bad:
                 checks["widecut"].case(k, not bad, f if bad else None, nontrivial=True, sample=sample)
         # random trees, generated inside the workers
@@ -1042,7 +1046,7 @@ def run(tier="quick", seed=0):
     for mode in modes:
         size, leaf_ids, d0, d1, d2 = scope[mode]
         dl = [k for k in leaf_ids if k != "orph"]  # see apply_delta: orphan zero-width characters have no column of their own
-        base = [e for e in d0 + d1 + d2[:: (9 if quick else 2)] if "orph" not in leaves_in(e)]
+        base = [e for e in d0 + d1 + d2[:: (9 if quick else 4)] if "orph" not in leaves_in(e)]
         if quick:
             base = base[::2]
         same, anyl = delta_pairs(base, size, dl, base_rng, (3000 if quick else 150000) // (1 if mode == "utf8" else 4))
